@@ -28,7 +28,7 @@ def runCase (s : St) : String :=
   else
     match s.langs.get? s.lang, parseDump s.dump.toList with
     | some lang, some d =>
-      let r := judgeCase lang s.text d.root s.api
+      let r := judgeCase lang s.text d.root s.api d.ranges
       let js := r.js
       s!"{s.id} corr={r.corr.render} inv={if r.inv then "ok" else "BAD"} judge={r.judge.render} raw={js.rawNodes} vis={js.vnodes.size} inner={r.corrStats.inner} hiddenvis={js.hiddenWithVisible} alias={js.aliases} extra={js.extras} err={js.errors} missing={js.missing} multiline={js.multiline} zerowidth={js.zeroWidth} leaves={js.leaves} literals={js.literals} bytes={s.text.size} kind={s.kind}"
     | _, _ => s!"{s.id} corr=BADINPUT inv=ok judge=BADINPUT"
